@@ -1,5 +1,13 @@
 package core
 
+import (
+	"fmt"
+	"os"
+	"runtime"
+	"sync/atomic"
+	"time"
+)
+
 // Cooperative scheduler: caller tasks are real goroutines, but exactly one runs
 // at a time; a task parks whenever it calls the yield function it was given
 // (worlds install it as the OnCall hook of the task's simulated reader or
@@ -10,7 +18,50 @@ type coTask struct {
 	yielded chan struct{}
 	done    bool
 	panicV  interface{}
+	gid     uint64
 }
+
+// Goid returns the current goroutine's id (parsed from the stack header; about a
+// microsecond). The schedulers use it to tell a task's own goroutine from
+// goroutines the code under test may start itself: only the former can be parked.
+func Goid() uint64 {
+	var b [40]byte
+	n := runtime.Stack(b[:], false)
+	var id uint64
+	for _, ch := range b[len("goroutine "):n] {
+		if ch < '0' || ch > '9' {
+			break
+		}
+		id = id*10 + uint64(ch-'0')
+	}
+	return id
+}
+
+// StallAfter: a resumed task that neither parks nor finishes within this (real) time is
+// taken to be blocked on something another, parked task holds (a lock inside the code
+// under test) or to be waiting for goroutines of its own; the scheduler then lets
+// another task run beside it instead of waiting forever. DeadlockAfter: no task is
+// parked, none finishes. Both only ever matter for code that blocks, which the
+// unchanged tree never does; a run that needed them is no longer a function of the seed
+// alone and says so in its event log.
+var (
+	StallAfter    = 5 * time.Second
+	DeadlockAfter = 40 * time.Second
+	everStalled   atomic.Bool
+)
+
+// StallLimit is StallAfter until a task of this process was once seen blocked; from then
+// on the code under test is known to block, and waiting long for every parked lock holder
+// would only cost time.
+func StallLimit() time.Duration {
+	if everStalled.Load() {
+		return 20 * time.Millisecond
+	}
+	return StallAfter
+}
+
+// NoteStall records that a resumed task did not come back in time.
+func NoteStall() { everStalled.Store(true) }
 
 // RunTasks runs the tasks to completion under a drawn schedule and returns the
 // schedule (task index per step, capped) and the panic value of each task.
@@ -20,7 +71,10 @@ func (c *Ctx) RunTasks(label string, tasks []func(yield func())) (string, []inte
 		t := &coTask{resume: make(chan struct{}), yielded: make(chan struct{})}
 		ts[i] = t
 		fn := tasks[i]
+		started := make(chan struct{})
 		go func() {
+			t.gid = Goid()
+			close(started)
 			<-t.resume
 			defer func() {
 				if r := recover(); r != nil {
@@ -30,32 +84,91 @@ func (c *Ctx) RunTasks(label string, tasks []func(yield func())) (string, []inte
 				t.yielded <- struct{}{}
 			}()
 			fn(func() {
+				if Goid() != t.gid {
+					return // a goroutine the code under test started: cannot be parked
+				}
 				t.yielded <- struct{}{}
 				<-t.resume
 			})
 		}()
+		<-started
 	}
 	var sched []byte
+	var running []int // resumed, neither parked nor finished within StallAfter
+	isRunning := func(i int) bool {
+		for _, r := range running {
+			if r == i {
+				return true
+			}
+		}
+		return false
+	}
+	collect := func(wait time.Duration) bool {
+		deadline := time.Now().Add(wait)
+		for {
+			for k := 0; k < len(running); k++ {
+				select {
+				case <-ts[running[k]].yielded:
+					running = append(running[:k], running[k+1:]...)
+					return true
+				default:
+				}
+			}
+			if wait == 0 || time.Now().After(deadline) {
+				return false
+			}
+			time.Sleep(2 * time.Millisecond)
+		}
+	}
 	for {
+		for collect(0) {
+		}
 		var live []int
 		for i, t := range ts {
-			if !t.done {
+			if !t.done && !isRunning(i) {
 				live = append(live, i)
 			}
 		}
 		if len(live) == 0 {
-			break
+			if len(running) == 0 {
+				break
+			}
+			if !collect(DeadlockAfter) {
+				c.Event("scheduler: %d task(s) blocked, none parked: deadlock or endless loop in the code under test", len(running))
+				c.Deadlock(label)
+				break
+			}
+			continue
 		}
 		i := live[c.Pick(label+".next", len(live))]
 		if len(sched) < 96 {
 			sched = append(sched, byte('0'+i))
 		}
 		ts[i].resume <- struct{}{}
-		<-ts[i].yielded
+		select {
+		case <-ts[i].yielded:
+		case <-time.After(StallLimit()):
+			NoteStall()
+			running = append(running, i)
+			c.Event("scheduler: task %d is blocked; letting another task run beside it (run no longer a function of the seed alone)", i)
+			c.Probe("scheduler: a resumed task blocked (lock held by a parked task, or waiting for its own goroutines)")
+		}
 	}
 	panics := make([]interface{}, len(ts))
 	for i, t := range ts {
 		panics[i] = t.panicV
 	}
 	return string(sched), panics
+}
+
+// Deadlock is called by a scheduler when every unfinished task is blocked and none is
+// parked. Totality is stated by C10 and "concurrent calls yield their output" by C18 (and
+// by the round-trip properties run under a scheduler, C14); under other properties the
+// worker stops as an infrastructure problem, never as a violation.
+func (c *Ctx) Deadlock(label string) {
+	if c.Oracle("C10", "C18", "C14") {
+		c.Violation("deadlock", label, "all unfinished concurrent callers are blocked and none is parked by the scheduler")
+	}
+	fmt.Fprintf(os.Stdout, "VERIF-HANG property=%s call=%s run=%d limit=%v\n", activeProp, label, guardRun.Load(), DeadlockAfter)
+	os.Exit(3)
 }
